@@ -280,6 +280,45 @@ def opAssemble (args : List String) : String :=
     | _, _, _, _, _ => "bad-op"
   | _ => "bad-op"
 
+/-- `spangraph <seed> <nNeigh-for-rule> <neigh nodes flat> <periodicShort bits | -> <best combo | -> <spans>` : span loop, metric filter and
+_find_graphs.  spans: `|`-separated `add;sub`, entries `,`-separated, each `_` (no match: copy index irrelevant) or `i:f1:f2:f3` -/
+def opSpanGraph (args : List String) : String :=
+  open Matid.SpanGraph in
+  let pNodes (s : String) : Option (List Node) := do
+    let l ← parseList? String.toInt? s
+    if l.length % 4 != 0 then none else
+    pure ((List.range (l.length / 4)).map fun i => ((l.getD (4 * i) 0).toNat, (l.getD (4 * i + 1) 0, l.getD (4 * i + 2) 0, l.getD (4 * i + 3) 0)))
+  let pEntry (s : String) : Option (Option Nat × F3) :=
+    if s == "_" then some (none, (0, 0, 0)) else
+    match (s.splitOn ":").mapM String.toInt? with
+    | some [i, a, b, c] => some (some i.toNat, (a, b, c))
+    | _ => none
+  let pSpan (s : String) : Option SpanO :=
+    match s.splitOn ";" with
+    | [a, b] => do pure { add := ← parseList? pEntry a, sub := ← parseList? pEntry b }
+    | _ => none
+  let sNode (n : Node) : String := s!"{n.1},{n.2.1},{n.2.2.1},{n.2.2.2}"
+  let sPairs (l : List (Node × Node)) : String := if l.isEmpty then "-" else ";".intercalate (l.map fun e => sNode e.1 ++ ">" ++ sNode e.2)
+  match args with
+  | [seedS, neighS, perS, comboS, spansS] =>
+    match seedS.toNat?, pNodes neighS, (if perS == "-" then some [] else some (perS.toList.map (· == '1'))), parseList? String.toNat? comboS,
+          (if spansS == "-" then some [] else (spansS.splitOn "|").mapM pSpan) with
+    | some seed, some neigh, some per, some combo, some spans =>
+      let adjs := allAdj neigh spans per
+      let metrics := adjs.map (·.metric)
+      let valid := Matid.Proto.validSpans MatidGen.ProtoRule.spanRule metrics neigh.length
+      let chosen := combo.filterMap fun c => (valid[c]?).bind fun i => adjs[i]?
+      let groups := if chosen.length == combo.length && !combo.isEmpty then findGraphs chosen neigh seed else none
+      let lt (a b : Node) : Bool := a.1 < b.1 || (a.1 == b.1 && (a.2.1 < b.2.1 || (a.2.1 == b.2.1 && (a.2.2.1 < b.2.2.1 || (a.2.2.1 == b.2.2.1 && a.2.2.2 < b.2.2.2)))))
+      showList toString metrics ++ " " ++ showList toString valid ++ " " ++
+        (if chosen.isEmpty then "-" else "|".intercalate (chosen.map fun a => sPairs a.add ++ "/" ++ sPairs a.sub ++ "/" ++ sPairs a.all)) ++ " " ++
+        (match groups with
+         | none => "None None"
+         | some g => "|".intercalate (g.groups.map fun c => ";".intercalate ((c.toArray.qsort lt).toList.map sNode)) ++ " " ++
+                     (match g.seedGroup with | some i => toString i | none => "None"))
+    | _, _, _, _, _ => "bad-op"
+  | _ => "bad-op"
+
 /-- `extend <cell> <pbc> <cutoff> <positions>` -/
 def opExtend (args : List String) : String :=
   match args with
@@ -643,6 +682,7 @@ def step (line : String) : String :=
   | "adaptcell" :: args => opAdaptCell args
   | "region" :: args => opRegion args
   | "assemble" :: args => opAssemble args
+  | "spangraph" :: args => opSpanGraph args
   | "withinbasis" :: args => opWithinBasis args
   | "query" :: args => opQuery args
   | "disp" :: args => opDisp args
